@@ -545,12 +545,33 @@ func calculateReuseIndexFor(r *Rule, oldResTcs []*TrafficShapingController) (equ
 // buildResourceTrafficShapingController builds TrafficShapingController slice from rules. the resource of rules must be equals to res
 func buildResourceTrafficShapingController(res string, rulesOfRes []*Rule, oldResTcs []*TrafficShapingController) []*TrafficShapingController {
 	newTcsOfRes := make([]*TrafficShapingController, 0, len(rulesOfRes))
+	// Old controllers that belong to a rule which is unchanged in the new list are reserved for it:
+	// they must not donate their statistic to a modified rule that happens to be listed earlier,
+	// otherwise the unchanged rule is rebuilt from scratch and loses its runtime state.
+	reserved := make(map[*TrafficShapingController]bool, len(oldResTcs))
+	for _, rule := range rulesOfRes {
+		for _, oldTc := range oldResTcs {
+			if !reserved[oldTc] && oldTc.BoundRule().isEqualsTo(rule) {
+				reserved[oldTc] = true
+				break
+			}
+		}
+	}
 	for _, rule := range rulesOfRes {
 		if res != rule.Resource {
 			logging.Error(errors.Errorf("unmatched resource name expect: %s, actual: %s", res, rule.Resource), "Unmatched resource name in flow.buildResourceTrafficShapingController()", "rule", rule)
 			continue
 		}
 		equalIdx, reuseStatIdx := calculateReuseIndexFor(rule, oldResTcs)
+		if equalIdx < 0 {
+			reuseStatIdx = -1
+			for idx, oldTc := range oldResTcs {
+				if !reserved[oldTc] && oldTc.BoundRule().isStatReusable(rule) {
+					reuseStatIdx = idx
+					break
+				}
+			}
+		}
 
 		// First check equals scenario
 		if equalIdx >= 0 {
